@@ -1,11 +1,12 @@
 /* C14 / C07: secp256k1_ecdsa_adaptor_decrypt and secp256k1_ecdsa_adaptor_recover - the gates, real code, every pointer
  * NULL or an object with arbitrary bytes.  Oracles with logs: scalar_inverse, scalar_mul, ecmult_gen, ge_set_gej.
- *  decrypt: deckey = 0 or >= n, or s'/r of the adaptor signature out of range => 0 and an all-zero signature object;
+ * Nothing is demanded about output buffers when a call returns 0 (neither header nor property promise anything there);
+ * oracle operands are compared as unordered pairs; objects are decoded with the TU's own load functions.
+ *  decrypt: succeeds exactly when 0 < deckey < n, x(R) mod n != 0 and 0 < s' < n;
  *           success => (r, s) with r = x(R) mod n, s = +/-(deckey^-1 * s') and s NOT high - for every input (real is_high / cond_negate)
  *  recover: r of the ECDSA signature != x(R) mod n => 0; s = 0 => 0; candidate y = s^-1 * s'; the x of y*G (oracle) must equal
  *           the x of the encryption key, else 0 and nothing written; y negated exactly when the parities differ.
- *           NOTE: the real code does not zero deckey32 on failure (neither header nor property text promise it): on the
- *           early rejections deckey32 is untouched, which is what is asserted. */
+ *           deckey32 is specified only when the call returns 1. */
 #define LOG_SCALAR_MUL
 #define LOG_SCALAR_INV
 #define LOG_ECMULT_GEN
@@ -13,6 +14,7 @@
 #include "assumed_adaptor.h"
 #include "src/secp256k1.c"
 #include "post.h"
+#include "../C12/decode.h"
 size_t g_k;
 #ifndef VERIF_NATIVE
 static wide le256(const unsigned char *b) { wide v = 0; int i; for (i = 31; i >= 0; i--) v = (v << 8) | W(b[i]); return v; }
@@ -25,14 +27,14 @@ void h_decrypt(void) {
     secp256k1_context ctx;
     INPUT(secp256k1_ecdsa_signature, sig); INPUT_ARR(unsigned char, deckey, 32); INPUT_ARR(unsigned char, asig, 162);
     INPUT(_Bool, use_sig); INPUT(_Bool, use_key); INPUT(_Bool, use_asig); INPUT(size_t, k);
-    secp256k1_ecdsa_signature sig0 = sig; secp256k1_scalar r, s; int ret;
+    secp256k1_scalar r, s; int ret;
     verif_ctx_init(&ctx);
     g_k = k; __CPROVER_assume(g_k < 64);
     g_mul_n = 0; g_inv_n = 0;
     ret = secp256k1_ecdsa_adaptor_decrypt(&ctx, use_sig ? &sig : NULL, use_key ? deckey : NULL, use_asig ? asig : NULL);
     __CPROVER_assert(ret == 0 || ret == 1, "C07 adaptor_decrypt: returns 0 or 1");
     __CPROVER_assert(g_error == 0, "C07 adaptor_decrypt: error callback never invoked");
-    if (!use_sig || !use_key || !use_asig) { __CPROVER_assert(ret == 0 && g_illegal == 1, "C14 adaptor_decrypt: NULL argument is illegal"); if (use_sig) __CPROVER_assert(sig.data[g_k] == sig0.data[g_k], "C14 adaptor_decrypt: illegal call writes nothing"); return; }
+    if (!use_sig || !use_key || !use_asig) { __CPROVER_assert(ret == 0 && g_illegal == 1, "C14 adaptor_decrypt: NULL argument is illegal"); return; }
     __CPROVER_assert(g_illegal == 0, "C07 adaptor_decrypt: no callback for any bytes");
 #ifndef VERIF_NATIVE
     {
@@ -40,11 +42,10 @@ void h_decrypt(void) {
         int good = D != 0 && D < n && modn1(Rx) != 0 && SP != 0 && SP < n;
         __CPROVER_assert(ret == good, "C14 adaptor_decrypt: succeeds exactly when 0 < deckey < n, x(R) mod n != 0 and 0 < s' < n");
         if (D == 0 || D >= n) __CPROVER_assert(ret == 0, "C14 adaptor_decrypt: deckey = 0 or >= n rejected");
-        if (ret == 0) __CPROVER_assert(sig.data[g_k] == 0, "C14 adaptor_decrypt: signature object all-zero on failure");
-        secp256k1_ecdsa_signature_load(&ctx, &r, &s, &sig);
-        __CPROVER_assert(scalar_ok(&r) && scalar_ok(&s) && sval(&s) <= (n - 1) / 2, "C14 adaptor_decrypt: the output s is never high (low-S for every input)");
         if (ret == 1) {
-            __CPROVER_assert(g_inv_n == 1 && sval(&g_inv_x0) == D && g_mul_n == 1 && SC_EQ(g_mul_a0, g_inv_r0) && sval(&g_mul_b0) == SP, "C14 adaptor_decrypt: s = deckey^-1 * s'");
+            secp256k1_ecdsa_signature_load(&ctx, &r, &s, &sig);
+            __CPROVER_assert(scalar_ok(&r) && scalar_ok(&s) && sval(&s) <= (n - 1) / 2, "C14 adaptor_decrypt: the signature handed out is never high-S (for every input)");
+            __CPROVER_assert(g_inv_n >= 1 && sval(&g_inv_x0) == D && g_mul_n >= 1 && pair_eq(sval(&g_mul_a0), sval(&g_mul_b0), sval(&g_inv_r0), SP), "C14 adaptor_decrypt: s = deckey^-1 * s'");
             __CPROVER_assert(sval(&r) == modn1(Rx), "C14 adaptor_decrypt: r = x(R) mod n");
             __CPROVER_assert(sval(&s) == sval(&g_mul_r0) || sval(&s) == negn(sval(&g_mul_r0)), "C14 adaptor_decrypt: s is the product or its negation");
             if (sval(&g_mul_r0) > (n - 1) / 2) REACH("adaptor_decrypt negates a high s");
@@ -60,38 +61,43 @@ void h_recover(void) {
     secp256k1_context ctx;
     INPUT(secp256k1_ecdsa_signature, rsig); INPUT_ARR(unsigned char, rdeckey, 32); INPUT_ARR(unsigned char, rasig, 162); INPUT(secp256k1_pubkey, enckey);
     INPUT(_Bool, use_sig); INPUT(_Bool, use_key); INPUT(_Bool, use_asig); INPUT(_Bool, use_enc); INPUT(_Bool, built); INPUT(size_t, k);
-    unsigned char deckey0[32]; secp256k1_scalar r, s; int ret;
+    secp256k1_scalar r, s; secp256k1_ge Y; int ret, enc_valid;
+    dec_init(); enc_valid = dec_pubkey(&Y, &enckey);
     verif_ctx_init(&ctx); ctx.ecmult_gen_ctx.built = built;
     g_k = k; __CPROVER_assume(g_k < 32);
     g_mul_n = 0; g_inv_n = 0; g_gen_n = 0; g_sg_n = 0;
-    memcpy(deckey0, rdeckey, 32);
     secp256k1_ecdsa_signature_load(&ctx, &r, &s, &rsig);
     __CPROVER_assume(scalar_ok(&r) && scalar_ok(&s));    /* representation invariant of a secp256k1_ecdsa_signature object (every parser/creator stores scalars < n) */
     ret = secp256k1_ecdsa_adaptor_recover(&ctx, use_key ? rdeckey : NULL, use_sig ? &rsig : NULL, use_asig ? rasig : NULL, use_enc ? &enckey : NULL);
     __CPROVER_assert(ret == 0 || ret == 1, "C07 adaptor_recover: returns 0 or 1");
     __CPROVER_assert(g_error == 0, "C07 adaptor_recover: error callback never invoked");
-    if (!use_sig || !use_key || !use_asig || !use_enc || !built) { __CPROVER_assert(ret == 0 && g_illegal == 1 && g_gen_n == 0, "C14 adaptor_recover: NULL argument or context without generator table is illegal"); if (use_key) __CPROVER_assert(rdeckey[g_k] == deckey0[g_k], "C14 adaptor_recover: illegal call writes nothing"); return; }
+    if (!use_sig || !use_key || !use_asig || !use_enc || !built) { __CPROVER_assert(ret == 0 && g_illegal == 1, "C14 adaptor_recover: NULL argument or context without generator table is illegal"); return; }
 #ifndef VERIF_NATIVE
     {
-        wide n = N_(), Rx = be256(&rasig[1]), SP = be256(&rasig[66]), Ex = le256(&enckey.data[0]), Ey = le256(&enckey.data[32]);
-        int codec_ok = modn1(Rx) != 0 && SP != 0 && SP < n;
-        if (!codec_ok) { __CPROVER_assert(ret == 0 && g_illegal == 0 && g_gen_n == 0 && rdeckey[g_k] == deckey0[g_k], "C14 adaptor_recover: adaptor signature with r = 0 or s' out of range rejected, nothing computed or written"); REACH("adaptor_recover codec reject"); return; }
-        __CPROVER_assert(g_inv_n == 1 && SC_EQ(g_inv_x0, s) && g_mul_n == 1 && SC_EQ(g_mul_a0, g_inv_r0) && sval(&g_mul_b0) == SP, "C14 adaptor_recover: candidate key = s^-1 * s' with s of the ECDSA signature");
-        __CPROVER_assert(g_gen_n == 1 && SC_EQ(g_gen_a0, g_mul_r0) && g_sg_n == 1 && GEJ_EQ(g_sg_a0, g_gen_r0), "C14 adaptor_recover: candidate public key = candidate*G, converted to affine");
-        if (Ex == 0) { __CPROVER_assert(ret == 0 && g_illegal == 1 && rdeckey[g_k] == deckey0[g_k], "C14 adaptor_recover: invalid encryption key object is illegal, nothing written"); REACH("adaptor_recover invalid enckey"); return; }
+        wide n = N_(), Rx = be256(&rasig[1]), SP = be256(&rasig[66]);
+        int codec_ok = modn1(Rx) != 0 && SP != 0 && SP < n, wired, xmatch, same_par;
+        wide cand = sval(&g_mul_r0);
+        if (!codec_ok) { __CPROVER_assert(ret == 0 && g_illegal == 0, "C14 adaptor_recover: adaptor signature with r = 0 or s' out of range is refused (no callback)"); REACH("adaptor_recover codec reject"); return; }
+        if (!enc_valid) { __CPROVER_assert(ret == 0 && g_illegal == 1, "C14 adaptor_recover: invalid encryption key object is illegal"); REACH("adaptor_recover invalid enckey"); return; }
         __CPROVER_assert(g_illegal == 0, "C07 adaptor_recover: no callback for any signature bytes");
         if (sval(&r) != modn1(Rx)) __CPROVER_assert(ret == 0, "C14 adaptor_recover: ECDSA signature whose r differs from x(R) mod n is refused");
         if (sval(&s) == 0) __CPROVER_assert(ret == 0, "C14 adaptor_recover: ECDSA signature with s = 0 is refused");
-        if (modp(fval(&g_sg_r0.x)) != modp(Ex)) __CPROVER_assert(ret == 0 && rdeckey[g_k] == deckey0[g_k], "C14 adaptor_recover: candidate whose public key has another x than the encryption key is refused, nothing written");
-        else {
-            int same_par = (int)(modp(fval(&g_sg_r0.y)) & 1) == (int)(modp(Ey) & 1);
-            wide cand = sval(&g_mul_r0);
-            __CPROVER_assert(ret == (sval(&r) == modn1(Rx) && sval(&s) != 0), "C14 adaptor_recover: with matching x, succeeds exactly when r matches and s != 0");
-            __CPROVER_assert(be256(rdeckey) == (same_par ? cand : negn(cand)), "C14 adaptor_recover: the candidate is negated exactly when its public key is the negation of the encryption key");
-            if (ret == 1 && !same_par) REACH("adaptor_recover negated candidate (negated-s twin)");
-            if (ret == 1 && same_par) REACH("adaptor_recover direct candidate");
-            if (ret == 0) REACH("adaptor_recover r mismatch with matching x");
+        /* candidate y = s^-1 * s', its public key y*G (oracles), compared with the encryption key */
+        wired = g_inv_n >= 1 && SC_EQ(g_inv_x0, s) && g_mul_n >= 1 && pair_eq(sval(&g_mul_a0), sval(&g_mul_b0), sval(&g_inv_r0), SP) &&
+                g_gen_n >= 1 && SC_EQ(g_gen_a0, g_mul_r0) && g_sg_n >= 1 && GEJ_EQ(g_sg_a0, g_gen_r0);
+        xmatch = cval4(&g_sg_r0.x) == cval(&Y.x);
+        same_par = (int)(cval4(&g_sg_r0.y) & 1) == (int)(cval(&Y.y) & 1);
+        if (ret == 1) {
+            __CPROVER_assert(wired, "C14 adaptor_recover: success goes through candidate = s^-1 * s' (s of the ECDSA signature) and its public key candidate*G");
+            __CPROVER_assert(xmatch, "C14 adaptor_recover: a candidate whose public key has another x than the encryption key is refused");
+            __CPROVER_assert(be256(rdeckey) == (same_par ? cand : negn(cand)), "C14 adaptor_recover: the key handed out is the candidate, negated exactly when its public key is the negation of the encryption key");
+            if (!same_par) REACH("adaptor_recover negated candidate (negated-s twin)");
+            if (same_par) REACH("adaptor_recover direct candidate");
         }
+        /* completeness: matching r, s != 0 and a candidate whose public key has the encryption key's x => accepted */
+        if (wired && xmatch && sval(&r) == modn1(Rx) && sval(&s) != 0) __CPROVER_assert(ret == 1, "C14 adaptor_recover: a signature that belongs to the adaptor signature and to the encryption key is accepted");
+        if (ret == 0 && wired && xmatch) REACH("adaptor_recover r mismatch with matching x");
+        if (ret == 0 && wired && !xmatch) REACH("adaptor_recover x mismatch");
     }
 #endif
 }
